@@ -519,6 +519,9 @@ pub fn check(data: &[u8], man: &Value, opts: &[String]) -> Out {
         } else {
             out.stat("c03_glyphs_not_pointwise", 1.0);
         }
+        // cubic sources: the compiler converts to quadratics (tolerance upem/1000), so points do not correspond; compare the
+        // curve the font draws at each master with the curve the master draws (sampled, two-way Hausdorff distance)
+        let cubic_mode = has_cubic && !gp.composite && dcomp.is_empty();
         for m in &masters {
             let mname = m["name"].as_str().unwrap();
             let Some(layer) = layers.get(mname) else { continue };
@@ -582,6 +585,35 @@ pub fn check(data: &[u8], man: &Value, opts: &[String]) -> Out {
                     if inst.tuples > 0 && (ph - wanth).abs() > 1.0 + 1e-6 {
                         out.viol("C04", format!("glyph '{name}' at master {mname}: gvar vertical phantom advance {ph} but the master says {wanth}"));
                     }
+                }
+            }
+            if cubic_mode {
+                let typed = |layer: &Value| -> Vec<Vec<(f64, f64)>> {
+                    layer["contours"].as_array().map(|cs| cs.iter().map(|c| {
+                        let pts: Vec<(f64, f64, String)> = c.as_array().unwrap().iter().map(|p| (f(&p[0]), f(&p[1]), p[2].as_str().unwrap_or("line").to_string())).collect();
+                        super::boundary::sample_source(&pts)
+                    }).collect()).unwrap_or_default()
+                };
+                let want = typed(layer);
+                let mut igp = vf::GlyphPoints { composite: false, pts: inst.pts.clone(), on_curve: gp.on_curve.clone(), contour_ends: gp.contour_ends.clone(), components: vec![], x_min: 0.0, y_max: 0.0, empty: gp.empty };
+                igp.pts.truncate(gp.on_curve.len());
+                // one polyline per contour
+                let mut got: Vec<Vec<(f64, f64)>> = vec![];
+                let mut s0 = 0;
+                for &e in &gp.contour_ends {
+                    if e >= igp.pts.len() || e < s0 {
+                        break;
+                    }
+                    let one = vf::GlyphPoints { composite: false, pts: igp.pts[s0..=e].to_vec(), on_curve: igp.on_curve[s0..=e].to_vec(), contour_ends: vec![e - s0], components: vec![], x_min: 0.0, y_max: 0.0, empty: false };
+                    got.push(super::boundary::sample_truetype(&one));
+                    s0 = e + 1;
+                }
+                let upem = f(&man["upem"]).max(1.0);
+                let tol = upem / 1000.0 + 1.5 + if is_default { 0.5 } else { bound };
+                let d = super::boundary::polylines_dist(&want, &got);
+                out.stat("c03_cubic_curves_compared", 1.0);
+                if d > tol {
+                    out.viol("C03", format!("glyph '{name}' at master {mname} {coords:?}: the curve the font draws is {d:.2} units away from the master's cubic outline (allowed {tol:.2})"));
                 }
             }
             // C03: points
